@@ -106,6 +106,31 @@ func Run(c *core.Ctx) {
 	}
 }
 
+// rootAtTip re-presents the tree with one of the root's leaf children as the root: a root
+// with a single neighbour that is itself a tip (what `Reroot` on a tip's branch, `UnRoot` on a
+// cherry or reading "(a,(b,c));" rooted at a leaf produce).  Returns n unchanged when the root
+// has no leaf child or would leave a single-child inner node.
+func rootAtTip(g *core.G, n *core.N) *core.N {
+	if len(n.Kids) < 3 {
+		return n
+	}
+	var idx []int
+	for i, k := range n.Kids {
+		if len(k.Kids) == 0 {
+			idx = append(idx, i)
+		}
+	}
+	if len(idx) == 0 {
+		return n
+	}
+	i := idx[g.Intn(len(idx))]
+	leaf := n.Kids[i]
+	inner := &core.N{Name: n.Name, Comments: n.Comments, PPos: 0, E: leaf.E}
+	inner.Kids = append(inner.Kids, n.Kids[:i]...)
+	inner.Kids = append(inner.Kids, n.Kids[i+1:]...)
+	return &core.N{Name: leaf.Name, Comments: leaf.Comments, Kids: []*core.N{inner}}
+}
+
 func matrixCase(c *core.Ctx, cli bool) {
 	o := opts(c.G)
 	if cli {
@@ -113,6 +138,9 @@ func matrixCase(c *core.Ctx, cli bool) {
 		o.MinTips = 3
 	}
 	n, _ := c.G.Tree(o)
+	if !cli && c.G.Chance(0.12) {
+		n = rootAtTip(c.G, n)
+	}
 	metric := c.G.Intn(3)
 	doMatrix(c, cli, metric, n)
 }
@@ -221,6 +249,9 @@ func cutCase(c *core.Ctx, cli bool) {
 		o.MinTips = 3
 	}
 	n, _ := c.G.Tree(o)
+	if !cli && c.G.Chance(0.15) {
+		n = rootAtTip(c.G, n)
+	}
 	// threshold drawn from the values present (ties), or in between
 	var lens []float64
 	var rec func(x *core.N)
